@@ -37,6 +37,7 @@ type wcase struct {
 	Branch []string `json:"branch,omitempty"`
 	Ext    []string `json:"ext,omitempty"`
 	HasExt bool     `json:"has_ext,omitempty"`
+	Poison int      `json:"poison,omitempty"`
 }
 
 type wres struct {
@@ -207,6 +208,11 @@ func evalC17(c *Ctx, cs *Case, d *c17Drivers) {
 		}
 		if m.ext >= 0 {
 			wc.Ext, wc.HasExt = ExtLists[m.ext], true
+		}
+		// every third request is preceded, inside both drivers, by the same call with a failing writer
+		if k := int(gen.HashString(string(doc)+m.name) % 9); k < 3 {
+			wc.Poison = k + 1
+			c.Count("preceded_by_a_failed_writer_call", 1)
 		}
 		line, _ := json.Marshal(wc)
 		line = append(line, '\n')
